@@ -210,3 +210,15 @@ fn c11_chk_offset_borrow_arc() {
     kani::cover!(true, "END");
     core::mem::forget(o);
 }
+
+// @h props=C11,C08 fuc=OffsetArc::make_mut note="after make_mut (shared case: the handle was redirected) the OffsetArc's bit pattern is still the value's address"
+gproof! { fn c11_offset_bits_after_make_mut() {
+    let n = any_count();
+    kani::assume(n > 1);
+    let mut o = Arc::into_raw_offset(mk(vrt::Cc(kani::any()), n));
+    let r = o.make_mut() as *mut vrt::Cc as usize;
+    let bits = unsafe { core::mem::transmute_copy::<OffsetArc<vrt::Cc>, usize>(&o) };
+    assert!(bits == r && vrt::addr(&*o as *const vrt::Cc) == r);
+    assert!(OffsetArc::strong_count(&o) == 1);
+    core::mem::forget(o);
+} }
